@@ -130,6 +130,10 @@ func Note(s string) { Notes = append(Notes, s) }
 // path (or counterexample), the native build renders it directly.
 func Notef(format string, args ...any) { Notes = append(Notes, fmt.Sprintf(format, args...)) }
 
+// RaceMonitor turns the engine's happens-before monitor on for the goroutines started from here
+// (scheduler mode); violations are reported under id. Natively a no-op.
+func RaceMonitor(id string) {}
+
 // Or / And: boolean connectives that do not fork the symbolic execution.
 func Or(a, b bool) bool                    { return a || b }
 func And(a, b bool) bool                   { return a && b }
